@@ -358,8 +358,10 @@ def kind_of(p):
     return {TYPE_DATA: "data", TYPE_PING: "ping", TYPE_DISCONNECT: "disc"}[p.type]
 
 
-def abstract(sess):
-    """Per direction ('c' = client→server, 's' = server→client) and substream: the sender's emission log
+def abstract(sess, late_acks=False):
+    """late_acks: the endpoints' sockets take time to send (slow links): an acknowledgement leaves later than the datagram it answers
+    arrived; arrivals are then matched to acknowledgements in order (the receive loop is serial) instead of by instant.
+    Per direction ('c' = client→server, 's' = server→client) and substream: the sender's emission log
     (first transmission of each reliable packet), and the receiver's accepted arrivals as log indices,
     interleaved in processing order, with the checkpoints. Returns dict[(dir, sub)] -> list of events:
       ("emit", j, id, kind, frag, payload) | ("arrive", j) | ("check", snapshot index)"""
@@ -387,7 +389,7 @@ def abstract(sess):
                     # an ack emitted by the receiver of direction `od` confirms the earliest pending arrival it matches
                     od = "s" if d == "c" else "c"
                     q = pending[od]
-                    while q and q[0][0] < t:
+                    while q and (q[0][0] < t if not late_acks else len(q[0][2]) == len(q[0][1])):
                         q.pop(0)          # rx of an earlier instant that was not acknowledged: rejected by the endpoint
                     for ent in q:
                         hit = None
